@@ -757,9 +757,29 @@ impl World {
                 r?;
             }
         }
-        // now kill our arena and present the surviving handles to the other (live) arena
+        // now kill our arena, let the allocator recycle its memory, make the other arena allocate and
+        // stash at the recycled addresses / same slot indices, and present the surviving (stale)
+        // handles to the other (live) arena
         let arena = self.arena.take();
         guarded("drop(Arena)", move || drop(arena))?;
+        self.sync_logs()?;
+        talloc::flush_freed();
+        let mut fresh: Vec<H> = vec![];
+        {
+            let r = guarded("stash in the other arena", || {
+                other.arena().mutate(|mc, root| {
+                    let s = root.sets[0].unwrap();
+                    for k in 0..3u32 {
+                        let g = gc_arena::Gc::new(
+                            mc,
+                            Node { id: 600 + k, pat: 0, _tok: Tok(600 + k), s: [gc_arena::Lock::new(None), gc_arena::Lock::new(None)], w: gc_arena::Lock::new(None), leaf: gc_arena::Lock::new(None), wl: gc_arena::Lock::new(None), cell: gc_arena::Lock::new(None) },
+                        );
+                        fresh.push(s.stash::<gc_arena::Rootable![Node<'_>]>(mc, g));
+                    }
+                })
+            })?;
+            let _ = r;
+        }
         {
             let this: &World = &self;
             let r = guarded("presentation of a handle of a destroyed arena", || -> VResult {
@@ -786,6 +806,7 @@ impl World {
             }
         }
         self.hs = [None, None, None];
+        drop(fresh);
         drop(other);
         self.sync_logs()?;
         Ok(())
